@@ -338,13 +338,13 @@ def _step(K, v):
     return K.ite(a >= 1, a, 1) * K.frac(Fraction(1e-6))      # the double nearest to 1e-6, exactly
 
 
-@contract("C02", targets=FD_TARGETS, instances=[("generic",), ("quadratic",)], opts={"max_paths": 400})
-def user_function_two_sided_differences(K, kind):
+@contract("C02", targets=FD_TARGETS, instances=[("generic", False), ("quadratic", False), ("generic", True), ("quadratic", True)], opts={"max_paths": 400})
+def user_function_two_sided_differences(K, kind, logly):
     """A user context function f(x, y, c) applied to two expressions (atoms satisfying D) and a plain number:
     value = f(values); diff = sum over the atom arguments of the two-sided difference quotient of f in that argument
     (step 1e-6*max(|v|,1), all other arguments at their values) times the argument's diff.  For a quadratic f the
     quotient IS the partial derivative, so the result satisfies D exactly."""
-    a, f, fp = atom(K, "f")
+    a, f, fp = atom(K, "f", positive=logly, logly=logly)          # a log-variable passed straight into the user function: fp is d f / d log f
     b, g, gp = atom(K, "g")
     c = K.real("c", sample=(-3, 3))
     if kind == "quadratic":
@@ -369,6 +369,40 @@ def user_function_two_sided_differences(K, kind):
         K.ensure("quadratic user function: diff is the exact derivative", K.real_eq(dif(K, r), true))
     K.ensure("result is a plain (non-log) atom", K.attr(r, "_logly") == False)     # noqa: E712
     K.ensure("the arguments are left untouched", K.And(K.real_eq(val(K, a), f), K.real_eq(val(K, b), g), K.real_eq(dif(K, a), fp), K.real_eq(dif(K, b), gp)))
+
+
+@contract("C02", targets=[PA + "Atom.__add__", PA + "Atom.__sub__", PA + "Atom.__mul__", PA + "Atom.__truediv__", PA + "Atom.__neg__", PA + "Atom.diff", PA + "Atom.value"],
+          instances=[(o,) for o in ("add", "sub", "mul", "truediv", "radd", "rmul", "neg")], opts={"max_paths": 400})
+def operators_do_not_modify_their_operands(K, op):
+    """Derivative seeds are arrays shared with the differentiation context (one array per variable occurrence, reused
+    in every evaluation): an operator must build its result in fresh arrays and leave value and diff of both operands
+    as they were - otherwise the first Jacobian evaluation is right and every later one is wrong."""
+    n = 2
+    xv, xd, yv, yd = (K.array(nm, (n,), nan=False) for nm in ("x", "xd", "y", "yd"))
+    snaps = [K.snapshot(v) for v in (xv, xd, yv, yd)]
+    for j in range(n):
+        K.assume(K.cell_val(K.cell(yv, j)) != 0)
+    a = K.call(Atom.no_context, xv, xd, False)
+    b = K.call(Atom.no_context, yv, yd, False)
+    k = K.real("k", nonzero=True)
+    r = {"add": lambda: K.binop("+", a, b), "sub": lambda: K.binop("-", a, b), "mul": lambda: K.binop("*", a, b), "truediv": lambda: K.binop("/", a, b),
+         "radd": lambda: K.binop("+", k, a), "rmul": lambda: K.binop("*", k, a), "neg": lambda: K.method(a, "__neg__")}[op]()
+    rd = K.getattr(r, "diff")
+    x0, xd0, y0, yd0 = snaps           # the state before the operation
+    want = {"add": lambda j: cv(K, xd0, j) + cv(K, yd0, j), "sub": lambda j: cv(K, xd0, j) - cv(K, yd0, j),
+            "mul": lambda j: cv(K, xd0, j) * cv(K, y0, j) + cv(K, x0, j) * cv(K, yd0, j),
+            "truediv": lambda j: (cv(K, xd0, j) * cv(K, y0, j) - cv(K, x0, j) * cv(K, yd0, j)) / (cv(K, y0, j) * cv(K, y0, j)),
+            "radd": lambda j: cv(K, xd0, j), "rmul": lambda j: k * cv(K, xd0, j), "neg": lambda j: -cv(K, xd0, j)}[op]
+    for j in range(n):
+        K.ensure(f"column {j}: diff of the result (computed from the operands as they were)", K.real_eq(K.cell_val(K.cell(rd, j)), want(j)))
+    for nm, arr, s0 in zip(("x.value", "x.diff", "y.value", "y.diff"), (xv, xd, yv, yd), snaps):
+        K.ensure(f"{nm} is left as it was", K.And(*[K.cell_eq(K.cell(arr, j), K.cell(s0, j)) for j in range(n)]))
+    # (x + number reuses x's diff array for the result: sharing is harmless as long as no operator writes in place,
+    #  which is what the clauses above establish - so sharing itself is not demanded to be absent)
+
+
+def cv(K, arr, j):
+    return K.cell_val(K.cell(arr, j))
 
 
 @contract("C02", targets=FD_TARGETS, instances=[(2,), (3,)], opts={"max_paths": 400})
@@ -503,3 +537,19 @@ def nonflat_steady_jacobian_against_finite_differences(B):
         if J.shape != fd.shape or not np.all(np.abs(J - fd) < 1e-5 * np.maximum(1, np.abs(fd))):
             B.fail("non-flat steady Jacobian differs from the derivative of the steady residuals", {"levels_changes": [Lx, Dx, Lz, Dz], "eval_jacob": J.tolist(), "finite_differences": fd.round(6).tolist()})
             return
+
+
+@contract("C02", targets=["irispie.aldi.adaptations:minimum"] + ([PA + "Atom.minimum"] if hasattr(Atom, "minimum") else []), instances=[(False,), (True,)], opts={"max_paths": 2000})
+def minimum_is_differentiated_correctly_or_rejected(K, logly):
+    """minimum(f, c) offered in equations: either the differentiator has a rule for it and the rule is right (value
+    min(f, c), derivative of the active argument), or the call on an expression is rejected with an exception - never
+    a wrong value.  (Which of the two holds is decided by whether Atom defines `minimum`.)"""
+    a, f, fp = atom(K, "f", logly=logly)
+    c = K.real("c")
+    K.assume(f != c)
+    if hasattr(Atom, "minimum"):
+        r = K.call(AA.minimum, a, c)
+        K.ensure("min: value", K.real_eq(val(K, r), K.ite(f < c, f, c)))
+        K.ensure("min: diff is the derivative of the active argument", K.real_eq(dif(K, r), K.ite(f < c, fp, 0)))
+    else:
+        K.raises(TypeError, lambda: K.call(AA.minimum, a, c), "no rule for minimum: rejected")
